@@ -4,6 +4,7 @@
 import N2V.Model.Load
 import N2V.Lemmas.DepfileTotal
 import N2V.Lemmas.ParseTotal
+import N2V.Lemmas.LoadTotal
 import N2V.Model.Depfile
 namespace N2V.C12
 open N2V N2V.Scanner N2V.Load
@@ -164,5 +165,31 @@ theorem scanner_back_sound {buf : Array UInt8} {s : Scanner} (w : Scanner.SW buf
     ∃ s', s.back = .ok s' ∧ Scanner.SW buf s' ∧ Scanner.NCR buf s'.ofs ∧ s'.ofs < buf.size := by
   obtain ⟨s', hb, w', n', lt', _⟩ := Scanner.back_ok w h
   exact ⟨s', hb, w', n', lt'⟩
+
+/-- **Any manifest is either loaded or rejected with a diagnostic** — the whole loader, for every
+    file system content and every manifest name (all bytes, any `include`/`subninja` nesting,
+    self-including files): `load::read` (up to opening the log) returns a loader with a consistent
+    graph, or one of: a parse error, a duplicate-output error, `empty path`, an unreadable file,
+    `include nesting`, `unknown rule`, an invalid `deps` value, an unpaired `rspfile`.  The model's
+    internal outcomes (panic in path canonicalisation, an unknown file id in `add_build`, a scanner
+    made over an unterminated buffer, a read outside a buffer, a statement loop or parser loop that
+    runs out of fuel) are unreachable. -/
+theorem load_total (fs : Fs) (main : Bytes) :
+    match load fs main with
+    | .ok l => GInv l.graph
+    | .error e => Diagnosed e := by
+  have h := Load.load_total false fs main
+  unfold load
+  cases hl : loadWith false fs main with
+  | ok l => rw [hl] at h; exact h
+  | error e => rw [hl] at h; exact h
+
+/-- `Diagnosed` spelled out: the model's internal error kinds are not among the diagnostics. -/
+theorem diagnosed_excludes_internal (k : String)
+    (hk : k ∈ ["internal: bad file id", "internal: fuel", "internal: scanner", "internal: canon", "oob", "overflow",
+      "fuel", "bad", "panic: canon"]) : ¬ Diagnosed (.other k) := by
+  intro hd
+  simp only [Diagnosed, List.mem_cons, List.not_mem_nil, or_false] at hd hk
+  rcases hk with rfl | rfl | rfl | rfl | rfl | rfl | rfl | rfl | rfl <;> revert hd <;> decide
 
 end N2V.C12
